@@ -13,8 +13,8 @@ namespace vs { namespace c02 {
 
 using namespace muscle;
 
-enum {T_BIN = 0, T_TMPL, T_TEXT, T_RAW, T_SLIP, T_WS, T_MINI, T_MICRO, T_TUNNEL, T_MINITUNNEL, NUM_T};
-static const char * kTNames[NUM_T] = {"bin", "tmpl", "text", "raw", "slip", "ws", "mini", "micro", "tunnel", "minitunnel"};
+enum {T_BIN = 0, T_TMPL, T_TEXT, T_RAW, T_SLIP, T_WS, T_MINI, T_MICRO, T_TUNNEL, T_MINITUNNEL, T_UDP, NUM_T};   // T_UDP: the plain MessageIOGateway in packet mode (one Message per datagram)
+static const char * kTNames[NUM_T] = {"bin", "tmpl", "text", "raw", "slip", "ws", "mini", "micro", "tunnel", "minitunnel", "udp"};
 inline int TFromName(const std::string & s) {for (int i=0; i<NUM_T; i++) if (s == kTNames[i]) return i; return -1;}
 
 // ---------------------------------------------------------------- allocation metering (bytes requested from malloc/new)
@@ -85,7 +85,7 @@ inline Plan Gen(uint64_t seed)
 {
    Rng cfg(seed, "config"), wl(seed, "workload"), fl(seed, "faults");
    Plan p;
-   static const int weights[NUM_T] = {34, 16, 5, 4, 5, 8, 10, 0, 9, 9};
+   static const int weights[NUM_T] = {34, 16, 5, 4, 5, 8, 10, 0, 9, 9, 6};
    int tot = 0; for (int w : weights) tot += w;
    int pk = (int) cfg.below((uint32_t) tot), t = 0; while(pk >= weights[t]) {pk -= weights[t]; t++;}
    if (cfg.oneIn(300)) t = T_MICRO;   // the micro codec's read API is not bounds-checked at all (recorded finding F27: nearly every rewritten stream crashes it), so it is sampled rarely
@@ -93,6 +93,7 @@ inline Plan Gen(uint64_t seed)
    static const uint32_t lrus[] = {100, 1000, 100000, 1024*1024};
    static const uint32_t mtus[] = {25, 40, 64, 100, 300, 576, 1500, 9000};
    uint32_t mtu = mtus[cfg.below(8)]; if ((t == T_MINITUNNEL)&&(mtu < 64)) mtu = 200;
+   if (t == T_UDP) {static const uint32_t um[] = {1500, 2047, 2048, 2049, 4096, 8192, 9000, 65000}; mtu = um[cfg.below(8)];}   // around and beyond the gateway's 2048-byte scratch buffer
    const uint32_t maxin = cfg.oneIn(8) ? 0 : (16u<<20);
    p.push_back("cfg prop=C02 gw=" + std::string(kTNames[t]) + " enc=" + I(enc) + " lru=" + U(lrus[cfg.below(4)]) + " minchunk=" + U(cfg.oneIn(2) ? 0 : (1 + cfg.below(20)))
                + " mtu=" + U(mtu) + " zl=" + I(cfg.oneIn(2) ? 0 : (1 + cfg.below(9))) + " maxin=" + U(maxin) + " slave=" + I(cfg.oneIn(3) ? 0 : 1)
@@ -110,6 +111,7 @@ inline Plan Gen(uint64_t seed)
       {
          int cls;
          if ((t == T_MINI)||(t == T_MICRO)) cls = MSGCLS_COMMON;
+         else if (t == T_UDP) {static const int uc[] = {MSGCLS_EDGE, MSGCLS_EDGE, MSGCLS_SMALL, MSGCLS_TINY, MSGCLS_LARGE}; cls = uc[wl.below(5)];}
          else if (t == T_TMPL) cls = wl.pct(60) ? MSGCLS_SHAPED : (int) wl.below(MSGCLS_COMMON);
          else {static const int c[] = {MSGCLS_TINY, MSGCLS_SMALL, MSGCLS_SMALL, MSGCLS_EDGE, MSGCLS_NESTED, MSGCLS_SHAPED, MSGCLS_SMALL, MSGCLS_LARGE}; cls = c[wl.below(wl.oneIn(6) ? 8 : 7)]; if (wl.oneIn(12)) cls = MSGCLS_MANYFIELDS;}
          std::string shp; if ((t == T_TMPL)&&(cls == MSGCLS_SHAPED)&&(wl.pct(70))) shp = " " + I((int)((seed >> 7) % 10) + (wl.oneIn(4) ? 1 : 0));   // templating runs keep coming back to one or two shapes: payload-only frames need a cached template
@@ -156,7 +158,7 @@ inline void UnitsOf(int t, const MessageRef & m, std::vector<std::string> & out)
          else if (nb > 0) out.push_back(std::string((const char *) d, nb));
       }
    }
-   else if (((t == T_TUNNEL)||(t == T_MINITUNNEL))&&(m()->HasName(PR_NAME_PACKET_REMOTE_LOCATION)))
+   else if (((t == T_TUNNEL)||(t == T_MINITUNNEL)||(t == T_UDP))&&(m()->HasName(PR_NAME_PACKET_REMOTE_LOCATION)))
    {
       Message copy(*m()); (void) copy.RemoveName(PR_NAME_PACKET_REMOTE_LOCATION);   // the receiving tunnel tags each Message with the packet's source address, by design
       out.push_back(Flat(copy));
@@ -203,8 +205,8 @@ static AbstractMessageIOGatewayRef MakeReceiver(int t, const Cfg & cfg)
 // Produces the valid traffic with real sender code (whole-buffer, fault-free transport).
 inline void BuildValid(int t, const Cfg & cfg, const std::vector<MessageRef> & msgs, Built & b)
 {
-   if ((t != T_TUNNEL)&&(t != T_MINITUNNEL)) for (auto & m : msgs) UnitsOf(t, m, b.units);
-   if ((t == T_TUNNEL)||(t == T_MINITUNNEL))
+   if ((t != T_TUNNEL)&&(t != T_MINITUNNEL)&&(t != T_UDP)) for (auto & m : msgs) UnitsOf(t, m, b.units);
+   if ((t == T_TUNNEL)||(t == T_MINITUNNEL)||(t == T_UDP))
    {
       AbstractMessageIOGatewayRef S = MakeSender(t, cfg);
       QueuePacketDataIO * io = new QueuePacketDataIO((uint32) cfg.i("mtu", 1500)); S()->SetDataIO(DataIORef(io));
@@ -458,7 +460,7 @@ inline void Exec(const Plan & plan, RunResult & res)
    // 2. valid traffic from real sender code
    SetCurOp("C02 build valid traffic (%s)", kTNames[t]); WatchdogArm(0);
    Built valid; BuildValid(t, cfg, msgs, valid);
-   const bool dgram = (t == T_TUNNEL)||(t == T_MINITUNNEL);
+   const bool dgram = (t == T_TUNNEL)||(t == T_MINITUNNEL)||(t == T_UDP);
 
    // 3. the hostile transport rewrites it
    Built hostile = valid;
